@@ -28,8 +28,180 @@ pub fn run(h: &H) {
             4 | 5 => {
                 h.guard(idx, "NTv2 hierarchies", || ntv2_tree(h, idx, &mut rng));
             }
-            _ => {
+            6 => {
                 h.guard(idx, "grid operators", || operators(h, idx, &mut rng));
+            }
+            _ => {
+                h.guard(idx, "grid operators over overlapping grid lists", || operator_lists(h, idx, &mut rng));
+            }
+        }
+    }
+}
+
+/// gridshift and deformation over lists of two or three overlapping grids (with @optional and
+/// @null entries): the operator must use the first grid containing the point, then the first one
+/// within the half-cell margin, in both directions
+fn operator_lists(h: &H, idx: u64, rng: &mut Rng) {
+    let bands = 1 + rng.below(3);
+    let n = 2 + rng.below(2);
+    let base = loop {
+        let s = GridSpec::random(rng, bands, false);
+        // deformation looks the grid up at atan2 longitudes and geographic latitudes
+        if s.lon_e < 170.0 && s.lon_w > -170.0 && s.lat_n < 80.0 && s.lat_s > -80.0 {
+            break s;
+        }
+    };
+    let mut ctx = GridCtx::new();
+    let mut models = Vec::new();
+    let mut names = Vec::new();
+    let ext = ["geoid", "datum", "deformation"][bands - 1];
+    for k in 0..n {
+        let mut s = if k == 0 { base.clone() } else { GridSpec::random(rng, bands, false) };
+        if k > 0 {
+            s.dlat = base.dlat;
+            s.dlon = base.dlon;
+            // shifted by whole and half cells: the margins of one grid reach into the other
+            s.lat_s = base.lat_s + base.dlat * 0.5 * rng.int(-5, 5) as f64;
+            s.lon_w = base.lon_w + base.dlon * 0.5 * rng.int(-5, 5) as f64;
+            s.lat_n = s.lat_s + s.dlat * (s.rows - 1) as f64;
+            s.lon_e = s.lon_w + s.dlon * (s.cols - 1) as f64;
+            for x in s.values.iter_mut() {
+                *x += 100.0 * k as f32;
+            }
+            if !(s.lon_e < 175.0 && s.lon_w > -175.0 && s.lat_n < 85.0 && s.lat_s > -85.0) {
+                // (the harness's own limit: keep the whole list clear of the date line and the poles)
+                return;
+            }
+        }
+        let Some((g, _)) = build(h, idx, &s, rng) else { return };
+        let name = format!("g{k}.{ext}");
+        ctx.grids.insert(name.clone(), Arc::new(g));
+        names.push(name);
+        models.push(s.model());
+    }
+    let null = rng.chance(0.3);
+    let mut list: Vec<String> = Vec::new();
+    for (k, name) in names.iter().enumerate() {
+        if rng.chance(0.2) {
+            list.push(format!("@missing{k}.{ext}"));
+        }
+        list.push(if rng.chance(0.3) { format!("@{name}") } else { name.clone() });
+    }
+    if null {
+        list.push("@null".into());
+    }
+    let dt = rng.short_decimal(1.0, 30.0, 1);
+    let def = match bands {
+        3 => format!("deformation grids={} dt={}", list.join(","), num(dt)),
+        _ => format!("gridshift grids={}", list.join(",")),
+    };
+    let op = match ctx.op(&def) {
+        Ok(op) => op,
+        Err(e) => {
+            v(h, idx, "operator-list/instantiation", J::obj().set("definition", &def).set("error", format!("{e}")));
+            return;
+        }
+    };
+    h.distinct(mix(idx, 78));
+    let e = Ellipsoid::default();
+    for _ in 0..24 {
+        let m0 = &models[rng.below(n)];
+        // inside, in the margin band, or outside
+        let (fx, fy) = (rng.range(-0.3, 1.3), rng.range(-0.3, 1.3));
+        let (mut lon, mut lat) = (m0.lon_w + fx * (m0.lon_e - m0.lon_w), m0.lat_s + fy * (m0.lat_n - m0.lat_s));
+        if rng.chance(0.4) {
+            // within the margin band of one edge
+            let mg = rng.range(0.0, 0.6);
+            match rng.below(4) {
+                0 => lat = m0.lat_s - mg * m0.dlat,
+                1 => lat = m0.lat_n + mg * m0.dlat,
+                2 => lon = m0.lon_w - mg * m0.dlon,
+                _ => lon = m0.lon_e + mg * m0.dlon,
+            }
+        }
+        // rounding at an edge of an area decides the selection: not the monitor's business
+        let near_edge = models.iter().any(|m| {
+            let eps = 1e-7 * (m.dlat + m.dlon);
+            [0.0, 0.5].iter().any(|mg| {
+                (lat - (m.lat_s - mg * m.dlat)).abs() < eps || (lat - (m.lat_n + mg * m.dlat)).abs() < eps || (lon - (m.lon_w - mg * m.dlon)).abs() < eps || (lon - (m.lon_e + mg * m.dlon)).abs() < eps
+            })
+        });
+        if near_edge || lon.abs() >= 179.0 * D2R || lat.abs() >= 89.0 * D2R {
+            continue;
+        }
+        let mut want = None;
+        let mut which = String::from("none");
+        'outer: for margin in [0.0, 0.5] {
+            for (k, m) in models.iter().enumerate() {
+                if let Some(x) = m.at(lon, lat, margin) {
+                    want = Some(x);
+                    which = format!("grid-{k}-{}", if margin == 0.0 { "inside" } else { "margin" });
+                    break 'outer;
+                }
+            }
+        }
+        let height = rng.range(0.0, 300.0);
+        let p: [f64; 4] = if bands == 3 {
+            let c = e.cartesian(&Coor4D([lon, lat, height, 0.0]));
+            [c[0], c[1], c[2], 2010.0]
+        } else {
+            [lon, lat, height, 2010.0]
+        };
+        for d in [D::F, D::I] {
+            // the inverse datum shift iterates: only the forward direction has a closed form
+            if bands == 2 && d == D::I {
+                continue;
+            }
+            let (r, c) = apply1(&ctx, op, d, p);
+            h.eval(1);
+            let sgn = if d == D::F { 1.0 } else { -1.0 };
+            let detail = |what: &str| {
+                J::obj()
+                    .set("what", what)
+                    .set("definition", &def)
+                    .set("direction", d.name())
+                    .set("query_lon_lat", J::coords(&[lon, lat]))
+                    .set("input", J::coords(&p))
+                    .set("output", J::coords(&r))
+                    .set("count", c)
+                    .set("model_selection", &which)
+                    .set("model_value", match &want { Some(w) => J::coords(w), None => J::Null })
+                    .set("grids_lat_s_lat_n_lon_w_lon_e", J::Arr(models.iter().map(|m| J::coords(&[m.lat_s, m.lat_n, m.lon_w, m.lon_e])).collect()))
+            };
+            match &want {
+                None => {
+                    h.class(&format!("operator-list/{ext}/outside/{}", if null { "with-null" } else { "without-null" }));
+                    let ok = if null { c == 1 && same_bits(&r, &p) } else { c == 0 && r.iter().any(|x| x.is_nan()) };
+                    if !ok {
+                        v(h, idx, &format!("operator-list/{ext}/outside-all-grids/{}", if null { "with-null" } else { "without-null" }), detail("outside every grid and margin"));
+                        return;
+                    }
+                }
+                Some(w) => {
+                    h.class(&format!("operator-list/{ext}/{which}"));
+                    let ok = match bands {
+                        1 => c == 1 && (r[2] - (height - sgn * w[0])).abs() <= 16.0 * f32_ulp(w[0].abs()) + 1e-9 && r[0] == lon && r[1] == lat,
+                        2 => {
+                            let tol = 16.0 * f32_ulp(w[0].abs().max(w[1].abs()));
+                            c == 1 && (r[0] - (lon + w[0])).abs() <= tol && (r[1] - (lat + w[1])).abs() <= tol && r[2] == height
+                        }
+                        _ => {
+                            let (sl, cl) = lon.sin_cos();
+                            let (sp, cp) = lat.sin_cos();
+                            let xyz = [
+                                -sl * w[0] - sp * cl * w[1] + cp * cl * w[2],
+                                cl * w[0] - sp * sl * w[1] + cp * sl * w[2],
+                                cp * w[1] + sp * w[2],
+                            ];
+                            let tol = 1e-5 * dt * (w[0].abs() + w[1].abs() + w[2].abs()) + 1e-7;
+                            c == 1 && (0..3).all(|k| (r[k] - (p[k] - sgn * dt * xyz[k])).abs() <= tol)
+                        }
+                    };
+                    if !ok {
+                        v(h, idx, &format!("operator-list/{ext}/selection-or-value/{}", d.name()), detail("the operator did not use the first grid containing the point, then the first within the margin"));
+                        return;
+                    }
+                }
             }
         }
     }
